@@ -194,11 +194,15 @@ template <class MDS> long atTyped(const MDS& m, const std::string& form, const s
 template <class E, class S, size_t... K> auto packExt(const std::vector<long long>& v, std::index_sequence<K...>) { return std::make_tuple(static_cast<S>(v[K])...); }
 
 
-template <Kind K, class E, size_t SP, class A, class MDS2> void regView(const std::string& key) {
+template <Kind K, class E, size_t SP, class A, class MDS2, class MDS3 = MDS2> void regView(const std::string& key) {
   using M = typename MapOf<K, E, SP>::type; using I = typename E::index_type;
   using L = typename M::layout_type; using MDS = md::mdspan<int, E, L, A>;
   registry()[key] = [](const Op& o) -> std::string {
-    std::optional<MDS> pool[4]; std::optional<MDS2> pool2[2];
+    std::optional<MDS> pool[4]; std::optional<MDS2> pool2[2]; std::optional<MDS3> pool3[2];
+    Op oAlt = o;      // an alternative mapping for the same type: ext2= / str2= / pv2=
+    if (o.kv.count("ext2")) oAlt.ext = parseList(o.get("ext2"));
+    if (o.kv.count("str2")) oAlt.str = parseList(o.get("str2"));
+    oAlt.kv.erase("pv"); if (o.kv.count("pv2")) { oAlt.kv["pv"] = o.get("pv2"); oAlt.pv = parseNum(o.get("pv2")); }
     arena().reset(); accessLog().clear();
     std::string out; bool first = true;
     auto emit = [&](const std::string& s) { if (!first) out += " | "; out += s; first = false; };
@@ -239,6 +243,17 @@ template <Kind K, class E, size_t SP, class A, class MDS2> void regView(const st
         else pool[num_(1)].emplace(MkHandle<H>::at(num_(2)), makeMap<K, E, SP>(o), A());
         continue;
       }
+      if (c == "cm2") {
+        if constexpr (std::is_constructible_v<A, int>) pool[num_(1)].emplace(MkHandle<H>::at(num_(2)), makeMap<K, E, SP>(oAlt), A(static_cast<int>(num_(3))));
+        else pool[num_(1)].emplace(MkHandle<H>::at(num_(2)), makeMap<K, E, SP>(oAlt), A());
+        continue;
+      }
+      if (c == "c3") {      // explicit conversion to all-static extents (valid when the run-time extents equal them)
+        if constexpr (std::is_constructible_v<MDS3, const MDS&>) { if (pool[num_(2)]) pool3[num_(1)].emplace(MDS3(*pool[num_(2)])); else pool3[num_(1)].reset(); }
+        else emit("no-ctor");
+        continue;
+      }
+      if (c == "o3") { emit(pool3[num_(1)] ? obsView(*pool3[num_(1)]) : "none"); continue; }
       if (c == "cp") { if (pool[num_(2)]) pool[num_(1)].emplace(*pool[num_(2)]); else pool[num_(1)].reset(); continue; }
       if (c == "mv") { if (pool[num_(2)]) pool[num_(1)].emplace(std::move(*pool[num_(2)])); else pool[num_(1)].reset(); continue; }
       if (c == "as") { if (pool[num_(1)] && pool[num_(2)]) *pool[num_(1)] = *pool[num_(2)]; else emit("skip"); continue; }
